@@ -41,6 +41,14 @@ func runC12(c *Ctx) {
 					lay, whyL = false, fmt.Sprintf("a path (%s) does not return the concatenation: it panics or never ends", p.CondString())
 					continue
 				}
+				// append(append(make(S, 0, n), a...), b...): built by appending to a fresh EMPTY slice - whatever its
+				// capacity, the result is storage of this call holding a followed by b
+				if r := p.Rets[0]; r.Op == "builtin" && r.Sym == "append" && len(r.Args) == 2 && r.Args[1].Key() == b.Key() {
+					if in := r.Args[0]; in.Op == "builtin" && in.Sym == "append" && len(in.Args) == 2 && in.Args[1].Key() == a.Key() &&
+						in.Args[0].Op == "mkslice" && len(in.Args[0].Args) >= 1 && in.Args[0].Args[0].IsConst("0") {
+						continue
+					}
+				}
 				if len(p.Rets) != 1 || p.Rets[0].Op != "mkslice" {
 					fresh, why = false, fmt.Sprintf("a path (%s) returns %s, which is not a freshly made slice: the result shares memory with an input", p.CondString(), p.Rets[0])
 					lay, whyL = false, "no fresh result"
